@@ -352,6 +352,9 @@ func (h *hist) callback() (*httpserver.Config, error) {
 	case "N":
 		h.rec.Emit("CBN")
 		return nil, nil
+	case "O": // an error that wraps the exported sentinel: Reload's errors.Is(err, ErrOldConfig) takes it for "unchanged"
+		h.rec.Emit("CBO")
+		return nil, fmt.Errorf("scripted callback failure: %w", httpserver.ErrOldConfig)
 	}
 	k, _ := strconv.Atoi(v)
 	h.mu.Lock()
@@ -453,6 +456,21 @@ func (h *hist) snapshot(quiet bool) string {
 	dial := map[string]bool{}
 	for _, a := range addrs {
 		ok := dialOK(h.real[a])
+		if _, mine := h.foreign[a]; mine && !ok {
+			// the harness itself holds a listener on this address: a refused / timed-out dial is the loaded machine
+			// (300 ms dial timeout), not the runner.  Retry with patience; if it still fails the history is not a trace
+			// of the modelled environment (seen once in a thorough run at load average 35)
+			for k := 0; k < 3 && !ok; k++ {
+				time.Sleep(50 * time.Millisecond)
+				if c, err := net.DialTimeout("tcp", h.real[a], 2*time.Second); err == nil {
+					c.Close()
+					ok = true
+				}
+			}
+			if !ok && h.envNoise == "" {
+				h.envNoise = fmt.Sprintf("dial to the harness's own listener on %s fails", a)
+			}
+		}
 		dial[a] = ok
 		b := 0
 		if ok {
@@ -587,7 +605,7 @@ func (h *hist) variant(kind string, r *prng.R) (string, cfgSpec) {
 	c := cur
 	c.Routes = append([]rt{}, cur.Routes...)
 	switch kind {
-	case "same":
+	case "same", "errold": // errold: the callback fails with an error wrapping ErrOldConfig; nothing is delivered
 	case "perm":
 		if len(c.Routes) > 1 {
 			c.Routes = append(c.Routes[1:], c.Routes[0])
@@ -819,6 +837,8 @@ func (h *hist) run() {
 				h.next.Store("E")
 			case "nil":
 				h.next.Store("N")
+			case "errold":
+				h.next.Store("O")
 			default:
 				h.next.Store(strconv.Itoa(h.intern(nc)))
 			}
@@ -1097,6 +1117,7 @@ func fixedScripts() []hscript {
 		{Name: "repath-back", Steps: []hstep{run, rl("repath"), rl("same"), rl("back"), rl("routes"), rl("routes"), rl("routes"), stop}},
 		{Name: "cb-error", Steps: []hstep{run, rl("err"), rl("addr"), stop}},
 		{Name: "cb-nil", Steps: []hstep{run, rl("same"), rl("nil"), rl("same"), can}},
+		{Name: "cb-error-wrapping-errold", Steps: []hstep{run, rl("errold"), rl("addr"), rl("errold"), rl("same"), stop}},
 		{Name: "busy-addr", Steps: []hstep{run, rl("busy"), rl("same"), stop}},
 		{Name: "busy-then-free", Steps: []hstep{run, rl("addr"), rl("busy"), {Op: "ffree"}, stop}},
 		{Name: "boot-on-busy", Steps: []hstep{{Op: "fbind"}, run, rl("busy"), stop}},
@@ -1136,7 +1157,7 @@ func randomScript(r *prng.R, i int) hscript {
 		s.Kind = "fake"
 	}
 	kinds := []string{"same", "perm", "addr", "routes", "repath", "timeout", "drain", "idle", "write", "back", "err", "nil", "busy", "addr", "routes", "same",
-		"swap", "zeroto", "zeroone", "swap"}
+		"swap", "zeroto", "zeroone", "swap", "errold"}
 	switch r.Intn(8) {
 	case 0:
 		s.Steps = append(s.Steps, hstep{Op: "stop"})
